@@ -16,6 +16,7 @@ import GFO.Model.Evolution
 import GFO.Model.Pattern
 import GFO.Model.Powell
 import GFO.Model.Simplex
+import GFO.Model.SmboBackend
 open GFO GFO.Proto
 
 /-- one recorded backend interaction of the real run -/
@@ -58,6 +59,7 @@ structure Script where
   pat : Option (PatCfg × PatSt) := none         -- when present: the complete pattern search model (GFO.Model.Pattern)
   pow : Option (PowCfg × PowSt) := none         -- when present: the complete Powell's method model (GFO.Model.Powell)
   sim : Option (SimCfg × SimSt) := none         -- when present: the complete downhill simplex model (GFO.Model.Simplex)
+  smb : Option (SmboCfg × SmboSt) := none       -- when present: the complete surrogate-model optimizer (GFO.Model.SmboBackend)
 deriving Inhabited
 
 def Script.raisesNow (s : Script) : Bool := match s.queue with
@@ -165,7 +167,7 @@ def backendPow : Backend Script where
     | none => backendPat.finishInit s
 
 /-- … and the complete downhill simplex model -/
-def backendOf : Backend Script where
+def backendSim : Backend Script where
   initPos s := match s.sim with
     | some (cfg, g) => ((simBackend cfg).initPos g).map (fun x => (x.1, { s with sim := some (cfg, x.2) }))
     | none => backendPow.initPos s
@@ -181,6 +183,24 @@ def backendOf : Backend Script where
   finishInit s := match s.sim with
     | some (cfg, g) => ((simBackend cfg).finishInit g).map (fun g' => { s with sim := some (cfg, g') })
     | none => backendPow.finishInit s
+
+/-- … and the complete surrogate-model optimizer -/
+def backendOf : Backend Script where
+  initPos s := match s.smb with
+    | some (cfg, g) => ((smboBackend cfg).initPos g).map (fun x => (x.1, { s with smb := some (cfg, x.2) }))
+    | none => backendSim.initPos s
+  iterate s := match s.smb with
+    | some (cfg, g) => ((smboBackend cfg).iterate g).map (fun x => (x.1, { s with smb := some (cfg, x.2) }))
+    | none => backendSim.iterate s
+  evalInit s x := match s.smb with
+    | some (cfg, g) => ((smboBackend cfg).evalInit g x).map (fun g' => { s with smb := some (cfg, g') })
+    | none => backendSim.evalInit s x
+  evaluate s x := match s.smb with
+    | some (cfg, g) => ((smboBackend cfg).evaluate g x).map (fun g' => { s with smb := some (cfg, g') })
+    | none => backendSim.evaluate s x
+  finishInit s := match s.smb with
+    | some (cfg, g) => ((smboBackend cfg).finishInit g).map (fun g' => { s with smb := some (cfg, g') })
+    | none => backendSim.finishInit s
 
 def showTracker (t : Tracker) : String :=
   s!"new={showOpt showPos t.posNew}:{showF t.scoreNew} cur={showOpt showPos t.posCurrent}:{showF t.scoreCurrent} " ++
@@ -243,7 +263,10 @@ def flushTape (m : M) : M :=
       match b.pow, b.sim with
       | some (cfg, g), _ => { b with pow := some (cfg, { g with tape := g.tape ++ es }) }
       | none, some (cfg, g) => { b with sim := some (cfg, { g with tape := g.tape ++ es }) }
-      | none, none => b
+      | none, none =>
+        match b.smb with
+        | some (cfg, g) => { b with smb := some (cfg, { g with tape := g.tape ++ es }) }
+        | none => b
   { m with d := { m.d with bst := b' }, pending := #[] }
 
 /-- run the pending call; output = one line per step of this call, then the result line -/
@@ -287,6 +310,7 @@ def pDraw (nd : Nat) : P Draw := do
   | "m" => do let v ← pN nd pF; pure (Draw.mutant v)
   | "g" => do let l ← pList pNat; pure (Draw.parents l)
   | "I" => do let l ← pList (pN nd pInt); pure (Draw.inits l)
+  | "v" => do let v ← pList pF; pure (Draw.spiral v)
   | k => throw s!"draw? {k}"
 
 def showNatLists (l : List (List Nat)) : String := showList (showList toString) l
@@ -479,6 +503,21 @@ def exec (m : M) (cmd : String) : P (M × List String) := do
       pure (m, [s!"tracker {showTracker g.tr}",
                 s!"simplex step={g.step} idx={g.compressIdx} pos={showList (showOpt showPos) g.simplexPos} scores={showList showF g.simplexScores} tapeLeft={g.tape.length}"])
     | none => pure (m, ["err:no-simplex-backend"])
+  | "bnew" => do
+    let nInits ← pNat
+    let repl ← pBool
+    let forest ← pBool
+    let initL ← pList (pN m.sp.dims.length pInt)
+    let warm ← pList (do let p ← pN m.sp.dims.length pInt; let y ← pF; pure (p, y))
+    let cfg : SmboCfg := { replacement := repl, trainsOnEmpty := forest, geo := m.sp.geo }
+    let sm : SmboState := { X := warm.map (·.1), Y := warm.map (·.2) }
+    pure ({ m with d := { nInits := nInits, bst := { smb := some (cfg, { initL := initL, sm := sm }) } }, call := none, warm := [], steps := #[], byCall := #[], pending := #[] }, ["ok"])
+  | "bstate" =>
+    match m.d.bst.smb with
+    | some (_, g) =>
+      pure (m, [s!"tracker {showTracker g.tr}",
+                s!"smbo X={showList showPos g.sm.X} Y={showList showF g.sm.Y} ncands={g.sm.cands.length} tapeLeft={g.tape.length}"])
+    | none => pure (m, ["err:no-smbo-backend"])
   | "lstep" => do
     let dur ← pRat; let r ← pRes
     pure ({ m with steps := m.steps.push (r, dur) }, [])
